@@ -71,6 +71,7 @@ type synFilter struct {
 	simpleLex  bool
 	family     func(i int) string // template family for the i-th grammar ("" = random)
 	noStrLits  func(i int) bool   // named tokens only (expected-token lists made of identifiers)
+	actionModeOf func(i int) int  // overrides actionMode per grammar
 }
 
 // genSynJobs generates n grammars passing the filter (deterministic in rng).
@@ -85,7 +86,11 @@ func genSynJobs(rng *rand.Rand, n int, prefix string, f synFilter) []*SynJob {
 			o.NoStrLits = f.noStrLits(len(jobs))
 		}
 		g := gram.GenSyntax(rng, o)
-		gram.AssignActions(rng, g, f.actionMode)
+		mode := f.actionMode
+		if f.actionModeOf != nil {
+			mode = f.actionModeOf(len(jobs))
+		}
+		gram.AssignActions(rng, g, mode)
 		if f.simpleLex {
 			gram.AddSimpleLex(g)
 		}
